@@ -89,7 +89,7 @@ PLAN = {
                 "tests": (["colno"], 1, 60, 110)},
         "tar": {"std": (["all"], 2, 20, 110), "shipped": (["all"], 2, 20, 110)},
         "xml": {"std": (["wf+ns+redef"], 2, 150, 110), "default": (["wf+ns+redef"], 2, 150, 110),
-                "shipped": (["wf+ns+redef"], 2, 150, 110), "tests": (["wf+ns+redef"], 1, 60, 110)},
+                "shipped": (["wf+ns+redef"], 2, 150, 110), "tests": (["wf+ns+redef"], 4, 200, 150)},
         "rest": {"std": (["all"], 4, 300, 110), "default": (["all"], 10, 1500, 200), "shipped": (["all"], 2, 150, 110),
                  "tests": (["all"], 1, 60, 110)},
     },
